@@ -42,6 +42,9 @@ Definition mark_pfx : string := String (ch 0) "m:".
 Definition err_marked (p : string) : bool := String.prefix mark_pfx p.
 Definition mkerr {A} (a : act) (e : ereason) (p : string) : res A :=
   Err e (if act_marked a && negb (err_marked p) then mark_pfx +++ p else p).
+(* the same for an error raised by a function that does not know the state *)
+Definition with_mark {A} (a : act) (r : res A) : res A :=
+  match r with Err e p => mkerr a e p | _ => r end.
 
 (** a value together with the tree it lives in and its dotted path *)
 Record loc := { l_root : value; l_path : string; l_val : value }.
@@ -208,7 +211,7 @@ Section Eval.
         match l_val v with
         | VRef _ _ | VSplice _ =>
           x <- dv (l_root v) a (l_path v) (l_val v) ;; to_string_dyn n' (snd x) (fst x)
-        | pv => s <- simple_string (eo_ftext o) pv ;; Ok (s, a)
+        | pv => s <- with_mark a (simple_string (eo_ftext o) pv) ;; Ok (s, a)
         end
       end.
 
@@ -327,14 +330,14 @@ Section Eval.
         | RNone | RMissing | RCyclic =>
           match resolve_env o (path_str p sep) with
           | Some (s, pc) =>
-            v <- parse_value o root dp s pc ;;
+            v <- with_mark a' (parse_value o root dp s pc) ;;
             Ok (v, match r with RCyclic => act_mark a' | _ => a' end)
           | None => match r with RCyclic => mkerr a' ECyclic "" | _ => mkerr a' EMissing "!raw" end
           end
         end
       | VSplice e =>
         x <- eval_exp e root a ;;
-        v <- parse_value o root dp (fst x) DefaultConfig ;; Ok (v, snd x)
+        v <- with_mark (snd x) (parse_value o root dp (fst x) DefaultConfig) ;; Ok (v, snd x)
       | v => Ok ({| l_root := root; l_path := dp; l_val := v |}, a)
       end.
   End Step.
@@ -355,8 +358,8 @@ Section Eval.
     x <- get_path_dyn (dyn_value fuel) fuel p a {| l_root := root; l_path := ""; l_val := root |} ;;
     match fst x with
     | Ok (Some v) => Ok (v, snd x)
-    | Ok None => Err EMissing (path_str p (p_sep (eo_p o)))
-    | Err e pth => Err e pth
+    | Ok None => mkerr (snd x) EMissing (path_str p (p_sep (eo_p o)))
+    | Err e pth => mkerr (snd x) e pth
     | Panic => Panic
     | OutOfModel => OutOfModel
     end.
